@@ -1,6 +1,7 @@
 package main
 
 import (
+	"go/token"
 	"go/types"
 	"strings"
 
@@ -154,29 +155,41 @@ func runC12(p *Program, r *Result) {
 	for i, c := range callsTo(write, flush.String()) {
 		okFull := false
 		okMore := false
-		for _, g := range p.guardsAt(c.Block()) {
-			bo, ok := g.Cond.(*ssa.BinOp)
-			if !ok || !g.Pol {
+		for _, at := range wtb.FactsAt(c.Block()) {
+			// the normalised atom carries the polarity; the branch condition gives the operands
+			if at.Kind != "cmp" || at.If == nil {
+				continue
+			}
+			cond := at.If.Cond
+			for {
+				if u, isNot := cond.(*ssa.UnOp); isNot && u.Op == token.NOT {
+					cond = u.X
+					continue
+				}
+				break
+			}
+			bo, ok := cond.(*ssa.BinOp)
+			if !ok {
 				continue
 			}
 			lc, isL := bo.X.(*ssa.Call)
 			if !isL || !isBuiltin(&lc.Call, "len") {
 				continue
 			}
-			k, isK := constInt(bo.Y)
+			k, isK := intConst(at.Y)
 			if !isK {
 				continue
 			}
 			arg := lc.Call.Args[0]
 			if ld, isLd := arg.(*ssa.UnOp); isLd {
-				if fa, isFA := ld.X.(*ssa.FieldAddr); isFA && fieldName(fa.X.Type(), fa.Field) == "unwritten" && bo.Op.String() == "==" && k == 65536 {
+				if fa, isFA := ld.X.(*ssa.FieldAddr); isFA && fieldName(fa.X.Type(), fa.Field) == "unwritten" && at.Op == "==" && k == 65536 {
 					if !wtb.fieldWrittenBetween(ld, c.(ssa.Instruction), fieldKey(fa)) {
 						okFull = true
 					}
 				}
 			}
 			// remaining input: a slice p[n:] of the loop-carried p with n the copy count
-			if sl, isSl := arg.(*ssa.Slice); isSl && bo.Op.String() == ">" && k == 0 {
+			if sl, isSl := arg.(*ssa.Slice); isSl && at.Op == "!=" && k == 0 {
 				if cp, isCp := sl.Low.(*ssa.Call); isCp && isBuiltin(&cp.Call, "copy") && cp.Call.Args[1] == sl.X {
 					okMore = true
 				}
